@@ -16,6 +16,8 @@
 (* A rule is a nested record:                                              *)
 (*   [op |-> "pattern", pidx]  [op |-> "kind", kid]  [op |-> "regex", texts]*)
 (*   [op |-> "nth", a, b, rev, of]   (of = [op |-> "none"] when absent)    *)
+(*   [op |-> "cons", sub, var, crule]  a reference to a global utility rule *)
+(*        whose rule is `sub` and which constrains variable `var` by crule *)
 (*   [op |-> "range", sl, sc, el, ec]                                      *)
 (*   [op |-> "all"|"any", subs]  [op |-> "not", sub]  [op |-> "matches", id]*)
 (*   [op |-> "inside"|"has"|"precedes"|"follows", sub, stop, field]        *)
@@ -85,6 +87,7 @@ Sem(U, T, pv, r, n) ==
       [] r.op = "any"     -> \E k \in 1..Len(r.subs) : Sem(U, T, pv, r.subs[k], n)
       [] r.op = "not"     -> ~Sem(U, T, pv, r.sub, n)
       [] r.op = "matches" -> Sem(U, T, pv, U.utils[r.id], n)
+      [] r.op = "cons"    -> Sem(U, T, pv, r.sub, n)      \* verdict-only reading; documents with constraints are not judged by Sem
       [] r.op = "inside"  ->
            LET chain == ParentChain(T, n)
                cand  == UptoStop(U, T, pv, r.stop, chain) IN
@@ -188,6 +191,15 @@ Eval(mode, U, T, r, n, env) ==
            LET m == Eval(mode, U, T, r.sub, n, env) IN
            [ok |-> ~m.ok, env |-> env]        \* the negated rule runs on a scratch env (fix 1aa7345)
       [] r.op = "matches" -> Eval(mode, U, T, U.utils[r.id], n, env)
+      \* RuleCore::do_match of a global utility: the rule matches into a scratch environment, then
+      \* MetaVarEnv::match_constraints tests the constrained variable if it is bound; the scratch environment is
+      \* committed only when the constraints hold (since fix fdd2b68; before, a rejected node left its bindings in
+      \* the caller's environment and spoiled the next candidate of a relational rule)
+      [] r.op = "cons" ->
+           LET m == Eval(mode, U, T, r.sub, n, env) IN
+           IF ~m.ok THEN Fail(env)
+           ELSE IF r.var \notin DOMAIN m.env.single \/ Eval(mode, U, T, r.crule, m.env.single[r.var], m.env).ok THEN Ok(m.env)
+           ELSE Fail(env)
       [] r.op = "inside" ->
            LET chain == ParentChain(T, n)
                cand  == LimitBy(mode, U, T, r.stop, chain)
@@ -243,6 +255,7 @@ PK(U, r) ==
            LET sets == { PK(U, r.subs[k]) : k \in 1..Len(r.subs) } IN
            IF \E s \in sets : s.any THEN AnyKind ELSE Kinds(UNION { s.set : s \in sets })
       [] r.op = "matches" -> PK(U, U.utils[r.id])
+      [] r.op = "cons" -> PK(U, r.sub)
       [] OTHER -> AnyKind                                  \* regex, range, not, relations
 
 KindAllowed(pk, kid) == pk.any \/ kid \in pk.set
